@@ -3,10 +3,20 @@ public refactoring API.  Used by the instrumented harnesses (values may be proxi
 replays on un-instrumented rope (concrete values), so both exercise the same call."""
 
 
+def _resources_kw(proj, op):
+    """the optional resources= restriction, as resource objects"""
+    if op.get("resources") is None:
+        return {}
+    return {"resources": [proj.get_resource(p) for p in op["resources"]]}
+
+
 def perform(proj, op):
     """returns the rope Change object (or raises what rope raises)"""
     api = op["api"]
+    rk = _resources_kw(proj, op)
     res = proj.get_resource(op["path"]) if op.get("path") is not None else None
+    if op.get("module") is not None:  # a module named the way an import names it (may lie outside the project)
+        res = proj.find_module(op["module"])
     if api in ("extract_method", "extract_variable"):
         from rope.refactor import extract
 
@@ -18,15 +28,15 @@ def perform(proj, op):
         inl = inline.create_inline(proj, res, op["offset"])
         if inl.get_kind() == "parameter":
             return inl.get_changes()  # InlineParameter takes no remove / only_current
-        return inl.get_changes(**{k: op[k] for k in ("remove", "only_current") if k in op})
+        return inl.get_changes(**{k: op[k] for k in ("remove", "only_current") if k in op}, **rk)
     if api == "rename":
         from rope.refactor import rename
 
-        return rename.Rename(proj, res, op.get("offset")).get_changes(op["name"], **{k: op[k] for k in ("docs", "in_hierarchy") if k in op})
+        return rename.Rename(proj, res, op.get("offset")).get_changes(op["name"], **{k: op[k] for k in ("docs", "in_hierarchy") if k in op}, **rk)
     if api == "move_global":
         from rope.refactor import move
 
-        return move.create_move(proj, res, op["offset"]).get_changes(proj.get_resource(op["dest"]))
+        return move.create_move(proj, res, op["offset"]).get_changes(proj.get_resource(op["dest"]), **rk)
     if api == "move_module":
         from rope.refactor import move
 
@@ -34,7 +44,7 @@ def perform(proj, op):
     if api == "move_method":
         from rope.refactor import move
 
-        return move.create_move(proj, res, op["offset"]).get_changes(op["dest_attr"], new_name=op.get("new_name"))
+        return move.create_move(proj, res, op["offset"]).get_changes(op["dest_attr"], new_name=op.get("new_name"), **rk)
     if api == "to_package":
         from rope.refactor import topackage
 
@@ -58,7 +68,7 @@ def perform(proj, op):
                 changers.append(cs.ArgumentDefaultInliner(c[1]))
             elif c[0] == "reorder":
                 changers.append(cs.ArgumentReorderer(list(c[1]), autodef=c[2]))
-        return cs.ChangeSignature(proj, res, op["offset"]).get_changes(changers)
+        return cs.ChangeSignature(proj, res, op["offset"]).get_changes(changers, **rk)
     if api == "introduce_parameter":
         from rope.refactor import introduce_parameter
 
@@ -66,11 +76,11 @@ def perform(proj, op):
     if api == "encapsulate_field":
         from rope.refactor import encapsulate_field
 
-        return encapsulate_field.EncapsulateField(proj, res, op["offset"]).get_changes(**{k: op[k] for k in ("getter", "setter") if op.get(k)})
+        return encapsulate_field.EncapsulateField(proj, res, op["offset"]).get_changes(**{k: op[k] for k in ("getter", "setter") if op.get(k)}, **rk)
     if api == "introduce_factory":
         from rope.refactor import introduce_factory
 
-        return introduce_factory.IntroduceFactory(proj, res, op["offset"]).get_changes(op["name"], global_factory=op.get("global_factory", False))
+        return introduce_factory.IntroduceFactory(proj, res, op["offset"]).get_changes(op["name"], global_factory=op.get("global_factory", False), **rk)
     if api == "method_object":
         from rope.refactor import method_object
 
@@ -82,7 +92,7 @@ def perform(proj, op):
     if api == "use_function":
         from rope.refactor import usefunction
 
-        return usefunction.UseFunction(proj, res, op["offset"]).get_changes()
+        return usefunction.UseFunction(proj, res, op["offset"]).get_changes(**rk)
     if api == "restructure":
         from rope.refactor import restructure
 
